@@ -76,24 +76,6 @@ Definition sections_once (e : sexp) : Prop :=
   | _ => True
   end.
 
-(* the names of a typed list still waiting for their type when the list ends: "c1 - t c2 c3" -> [c2; c3] *)
-Fixpoint trailing_untyped (toks pending : list string) : list string :=
-  match toks with
-  | [] => pending
-  | t :: rest =>
-      if String.eqb t "-" then match rest with _ :: rest' => trailing_untyped rest' [] | [] => [] end
-      else trailing_untyped rest (pending ++ [t])
-  end.
-
-(* every constant of the (:constants ...) section is followed by its type (finding D45 is about the others) *)
-Definition constants_all_typed (e : sexp) : Prop :=
-  match e with
-  | SList (_ :: sections) =>
-      forall body names, In body (section_bodies ":constants" sections) ->
-                         atom_names body = Some names -> trailing_untyped names [] = []
-  | _ => True
-  end.
-
 (* ---------- formulas and effects: "denote the same" ---------- *)
 Definition form_equiv (f g : form) : Prop :=
   forall eps tt objs e s, holds eps tt objs e s f = holds eps tt objs e s g.
@@ -107,38 +89,29 @@ Inductive eff_rel : eff -> eff -> Prop :=
     eff_rel (EForall v ty c es) (EForall v ty c' es').
 Definition effs_rel (l l' : list eff) : Prop := exists l2, Permutation l l2 /\ Forall2 eff_rel l2 l'.
 
-(* ---------- where the reading is not the library's (recorded findings; the theorems exclude exactly these) ------ *)
-(* D47: a function declared with parameters applied to no argument, e.g. (f) with (:functions (f ?x - t)) *)
-Fixpoint nexp_applied_ok (funcs : list (string * typed)) (n : nexp) : bool :=
-  match n with
-  | NNum _ => true
-  | NFl f [] => match lookup f funcs with Some (_ :: _) => false | _ => true end
-  | NFl _ _ => true
-  | NBin _ a b => nexp_applied_ok funcs a && nexp_applied_ok funcs b
-  end.
-(* '(= 1 2)': two numerals compared by '=' are read as a numeric comparison by the grammar *)
-Fixpoint form_ok (funcs : list (string * typed)) (f : form) : bool :=
+(* ---------- what the library stores although it cannot evaluate it (it raises at the first use) ---------- *)
+(* '(= 1 2)': two numerals compared by '=' are a numeric comparison for the grammar; the library stores an object
+   equality over the names "1" and "2" and raises KeyError when the action is grounded *)
+Fixpoint form_ok (f : form) : bool :=
   match f with
   | FCmp CEq (NNum _) (NNum _) => false
-  | FCmp _ l r => nexp_applied_ok funcs l && nexp_applied_ok funcs r
-  | FAnd l | FOr l => forallb (form_ok funcs) l
-  | FForall _ _ b => form_ok funcs b
+  | FAnd l | FOr l => forallb form_ok l
+  | FForall _ _ b => form_ok b
   | _ => true
   end.
-(* the assigned fluent is a function application (its name is not a reserved word) *)
-Definition prim_ok (funcs : list (string * typed)) (p : prim) : bool :=
+(* '(increase (+ 1 2) 3)': the assigned term is a function application, its name is not a reserved word
+   (the library stores the arithmetic node and raises AttributeError when the action is applied) *)
+Definition prim_ok (p : prim) : bool :=
   match p with
-  | PNum _ f args rhs =>
-      negb (str_in f keywords) && nexp_applied_ok funcs (NFl f args) && nexp_applied_ok funcs rhs
+  | PNum _ f _ _ => negb (str_in f keywords)
   | _ => true
   end.
-Definition eff_ok (funcs : list (string * typed)) (e : eff) : bool :=
+Definition eff_ok (e : eff) : bool :=
   match e with
-  | EPrims es => forallb (prim_ok funcs) es
-  | EWhen c es | EForall _ _ c es => form_ok funcs c && forallb (prim_ok funcs) es
+  | EPrims es => forallb prim_ok es
+  | EWhen c es | EForall _ _ c es => form_ok c && forallb prim_ok es
   end.
-Definition action_ok (funcs : list (string * typed)) (a : action) : bool :=
-  form_ok funcs (a_pre a) && forallb (eff_ok funcs) (a_effs a).
+Definition action_ok (a : action) : bool := form_ok (a_pre a) && forallb eff_ok (a_effs a).
 
 (* predicate names are names: not a reserved word of the language, not the ':private' marker *)
 Definition pred_names_ok (preds : list string) : bool :=
